@@ -85,7 +85,7 @@ def display_symbols(prog, adt_path):
     for idx, (_val, eff) in t.items():
         lits = []
         dyn = False
-        for d, r, args, _sp in eff:
+        for d, r, args, _sp in [e_[:4] for e_ in eff]:
             if path_endswith(d, "Arguments::<'a>::from_str") or d.endswith('::from_str') and 'fmt::Arguments' in d:
                 if args and is_const(args[0]):
                     lits.append(args[0][1])
